@@ -998,6 +998,10 @@ func (s *State) key(interesting []ssa.Value) string {
 		sb.WriteString("|havoc")
 	}
 	fmt.Fprintf(&sb, "|e%d|S%d|l%d", s.errSet, min(s.E, 4), max(min(s.Lmin, 2), -1))
+	if s.errMsg != "" {
+		// paths that recorded different errors stay apart: R-ERRSTUCK's obligations (and the known findings) are per message
+		sb.WriteString("|m" + s.errMsg)
+	}
 	if s.Lmax == 0 {
 		sb.WriteString("|L0")
 	}
@@ -1064,7 +1068,7 @@ func (s *State) exitKey() string {
 		}
 	}
 	sort.Strings(hk)
-	return fmt.Sprintf("%s|eof%v|e%d|h%v|m%d", strings.Join(hk, ";"), s.atEOF, s.errSet, s.havoc, min(max(s.dispLo, 0), 1))
+	return fmt.Sprintf("%s|eof%v|e%d|h%v|m%d|%s", strings.Join(hk, ";"), s.atEOF, s.errSet, s.havoc, min(max(s.dispLo, 0), 1), s.errMsg)
 }
 
 // joinInto merges o into s (same partition). Returns true if s changed.
